@@ -106,8 +106,10 @@ fn lock() -> std::sync::MutexGuard<'static, CtlState> {
     ctl().m.lock().unwrap_or_else(|e| e.into_inner())
 }
 
+/// the site that announces the decrement of the strong count (since the repair of the silent
+/// release a take() that resolves to None gives its reference up through Drop as well)
 fn is_release_site(site: &str) -> bool {
-    site == "fd.drop.dec" || site == "fd.take.none"
+    site == "fd.drop.dec"
 }
 
 /// Park the calling role at `site` until the controller grants a turn.
